@@ -7,6 +7,9 @@ of another connection except its *tracker* (the scheduler state: fresh data legi
 parked subscribers via `track` / `reschedule`).
 -/
 import Proofs.Lemmas.Router.Rp1_Ack
+import Proofs.Lemmas.Router.Rp2_Consume
+import Proofs.Lemmas.Router.Rp2_Payload
+import Proofs.Lemmas.Router.Rp13_Isolation
 namespace C14
 open Router
 
@@ -88,11 +91,223 @@ theorem step_removes_only {cfg : Config} {s s' : RState} {o : List Choice} {op :
     rw [push_drain_touch_nobody h (.inr ⟨l, rfl⟩) j] at hgone
     rw [show getConn { s with oracle := o } j = getConn s j from rfl, hc] at hgone; simp at hgone
 
+
+/-! ### isolation at run level
+
+Client X has connection id `a`, client id `cid`; `f` is one of its subscriptions. The premises constrain
+X's OWN ops only (`OwnOp`, `OwnRun`; definitions in Proofs/Lemmas/Router/Rp13_Isolation.lean, spelled
+out by `own_op_spec`); every op of every other id is arbitrary. The one further premise of the delivery
+statement is the broker's retention limit (`RetRun`: X's cursor is not overtaken by the eviction of old
+log segments — a slow consumer loses what the log no longer holds, whoever published it). -/
+
+/-- what `OwnOp` demands, op by op: a CONNECT must not carry X's client id; an event for X's connection
+    id must not be `Disconnect` (this is also the premise that excludes the recorded exception: a stale
+    Disconnect for a reused slot id closes the NEW connection in that slot — X's link sends Disconnect
+    only for X's own connection), and a `DeviceData` event for X's id must carry no UNSUBSCRIBE of `f`
+    and must not close X's connection (`NotClosing`: no DISCONNECT packet, protocol violation, bad ack).
+    `consume`, link pushes and drains, and EVERY event for any other id — live, removed or never used —
+    are unconstrained. -/
+theorem own_op_spec (a : Nat) (cid f : String) (t : RState) :
+    (∀ spec, OwnOp a cid f t (.connect spec) ↔ spec.clientId ≠ cid) ∧
+    (∀ id ev, id ≠ a → OwnOp a cid f t (.event id ev)) ∧
+    (∀ ev, OwnOp a cid f t (.event a ev) ↔ ev ≠ .disconnect ∧
+      (ev = .deviceData → (∀ c, getConn t a = some c → ∀ p ∈ (getLink t c.link).ibuf, f ∉ pktUnsubs p) ∧
+        ∀ t', handleDevicePayload t a = .ok t' → getConn t' a ≠ none)) ∧
+    OwnOp a cid f t .consume ∧ (∀ l p, OwnOp a cid f t (.push l p)) ∧ (∀ l, OwnOp a cid f t (.drain l)) :=
+  ⟨fun _ => Iff.rfl, fun _ _ hne e => absurd e hne, fun _ => ⟨fun h => h rfl, fun h _ => h⟩, trivial,
+   fun _ _ => trivial, fun _ => trivial⟩
+
+/-- one step seen from X: whatever the op (under `OwnOp`), X's connection stays with its client id, link
+    and clean flag; its subscriptions change at most in its own DeviceData event; and apart from that
+    event and from `consume` serving X itself, NOTHING of X's connection changes but its tracker (the
+    scheduler state: fresh data wakes parked subscribers) -/
+theorem others_change_only_the_tracker {cfg : Config} {s s' : RState} {ch : List Choice} {op : Op} {out : Out}
+    {a : Nat} {c : Conn} {f : String} (hr : Reachable cfg s) (hc : getConn s a = some c)
+    (ho : OwnOp a c.clientId f { s with oracle := ch } op)
+    (h : step { s with oracle := ch } op = .ok (s', out)) :
+    ∃ c', getConn s' a = some c' ∧ c'.clientId = c.clientId ∧ c'.link = c.link ∧ c'.clean = c.clean ∧
+      (op ≠ .event a .deviceData → c'.subscriptions = c.subscriptions) ∧
+      (op ≠ .event a .deviceData → (op = .consume → polled s ≠ some a) → ∃ t, c' = { c with tracker := t }) := by
+  obtain ⟨c', hc', hid, h1, h2⟩ := own_step hr hc ho h
+  exact ⟨c', hc', hid.1, hid.2.1, hid.2.2.1, h1, h2⟩
+
+/-- C14 (a) `connection_and_subscriptions_survive`. Over ANY run from a reachable state that satisfies
+    `OwnRun` — arbitrary ops of all other ids —, X's connection stays registered under its id and in the
+    connection map, with the same client id, link and clean flag, and with exactly the same
+    subscriptions unless X itself sent packets (a DeviceData event of X's own id is the only op that can
+    change them; that `f` survives X's own batches is part of `isolated_delivery`) -/
+theorem connection_and_subscriptions_survive {cfg : Config} {a : Nat} {f : String} (ops : List (Op × List Choice))
+    {s s2 : RState} {c : Conn} (hr : Reachable cfg s) (hc : getConn s a = some c)
+    (ho : OwnRun a c.clientId f s ops) (hrun : run s ops = .ok s2) :
+    ∃ c2, getConn s2 a = some c2 ∧ c2.clientId = c.clientId ∧ c2.link = c.link ∧ c2.clean = c.clean ∧
+      alookup c.clientId s2.connectionMap = some a ∧
+      ((∀ ch, (Op.event a .deviceData, ch) ∉ ops) → c2.subscriptions = c.subscriptions) := by
+  obtain ⟨hr2, c2, hc2, hid, hsub⟩ := OwnRun.survives ops hr hc ho hrun
+  refine ⟨c2, hc2, hid.1, hid.2.1, hid.2.2.1, ?_, hsub⟩
+  rw [← hid.1]; exact (AdmInv.reachable hr2).map.2 a c2 hc2
+
+/-- C14 (b) `isolated_delivery` (from `C01.delivery_is_prefix`). Same runs, within the retention
+    (`RetRun`) and below the no-overflow bound: the log offsets forwarded to X through its non-shared
+    subscription `f` are EXACTLY the consecutive offsets from its request's cursor at the start — in
+    order, no gap, no repeat —, X's request for `f` ends right behind them, and `f` is still one of X's
+    subscriptions. That X's connection stays (a premise of `delivery_is_prefix`) is here a consequence. -/
+theorem isolated_delivery {cfg : Config} (h1 : 1 ≤ cfg.maxSegmentSize) (h2 : 1 ≤ cfg.maxSegmentCount)
+    (hpos : 0 < cfg.maxOutgoingPacketCount) {a : Nat} {f : String} (ops : List (Op × List Choice))
+    {s s2 : RState} {c : Conn} {r : DataRequest} (hr : Reachable cfg s) (hc : getConn s a = some c)
+    (ho : OwnRun a c.clientId f s ops) (hret : RetRun a f s ops) (hrun : run s ops = .ok s2) (hno : Rp3.NoOverflow s2)
+    (hown : Own s a r) (hf : r.filter = f) (hplain : r.group = none) :
+    ∃ r2 c2, Own s2 a r2 ∧ r2.filter = f ∧ r2.group = none ∧ r2.filterIdx = r.filterIdx ∧
+      runFwd a f s ops = List.range' r.cursor.2 (runFwd a f s ops).length ∧
+      r2.cursor.2 = r.cursor.2 + (runFwd a f s ops).length ∧
+      getConn s2 a = some c2 ∧ f ∈ c2.subscriptions := by
+  have hq := quietRun_of_own ops hr hc ho hret
+  obtain ⟨r2, o2, g1, g2, g3, g4, g5⟩ := run_thread h1 h2 hpos ops hr hrun hno hq hown hf hplain
+  obtain ⟨hr2, c2, hc2, _, _⟩ := OwnRun.survives ops hr hc ho hrun
+  exact ⟨r2, c2, o2, g1, g2, g3, g4, g5, hc2, g1 ▸ own_subscribed (Inv3.reachable hr2).rc o2 hc2⟩
+
+/-- C14 (c), one step: in a reachable state in which X's connection is `c`, for any op under `OwnOp`:
+    1. X's own DeviceData event appends to X's ack log exactly the replies owed to the packets of its
+       batch (`Replies`), in packet order, changes no other connection's ack log, link or client id and
+       writes no outgoing buffer;
+    2. the `consume` call that serves X flushes X's whole ack log, in order, to X's own link ahead of
+       anything else, empties it, and writes no other link;
+    3. EVERY other op — any op of any other id — leaves X's ack log exactly as it is;
+    4. afterwards, if X's connection is `Paused(Caughtup)` its ack log is empty (no reply withheld). -/
+theorem isolated_replies_step {cfg : Config} {t t' : RState} {ch : List Choice} {op : Op} {out : Out}
+    {a : Nat} {c : Conn} {f : String} (hr : Reachable cfg t) (hc : getConn t a = some c)
+    (ho : OwnOp a c.clientId f { t with oracle := ch } op)
+    (hs : step { t with oracle := ch } op = .ok (t', out)) :
+    (op = .event a .deviceData →
+      ∃ as, Replies (getLink t c.link).ibuf as ∧ acksOf t' a = some (c.acks.committed ++ as) ∧
+        (∀ j, j ≠ a → (getConn t' j).map Conn.view = (getConn t j).map Conn.view) ∧
+        (∀ l, (getLink t' l).obuf = (getLink t l).obuf)) ∧
+    (op = .consume → polled t = some a →
+      (∃ rest, (getLink t' c.link).obuf = (getLink t c.link).obuf ++ c.acks.committed.map Notif.ack ++ rest ∧
+        ∀ n ∈ rest, n.isAck = false) ∧
+      (∀ l, l ≠ c.link → getLink t' l = getLink t l) ∧ acksOf t' a = some []) ∧
+    (op ≠ .event a .deviceData → (op = .consume → polled t ≠ some a) → acksOf t' a = acksOf t a) ∧
+    (∀ c', getConn t' a = some c' → c'.tracker.status = .paused .caughtup → c'.acks.committed = []) := by
+  have hc' : getConn { t with oracle := ch } a = some c := hc
+  refine ⟨fun e => ?_, fun e hp => ?_, fun h1 h2 => ?_, fun c' hc1 => AI.reachable (hr.step hs) a c' hc1⟩
+  · subst e
+    cases step_cases hs with
+    | event _ _ h' =>
+      have h'' : handleDevicePayload { t with oracle := ch } a = .ok t' := h'
+      obtain ⟨as, hcase⟩ := handleDevicePayload_spec hc' h''
+      rcases hcase with ⟨hn, _⟩ | ⟨r, ⟨c1, g, e1, _, _⟩, hob, _, hj, _⟩
+      · exact absurd hn ((((ho rfl).2 rfl).2) t' h'')
+      · exact ⟨as, r, by simp [acksOf, g, e1], hj, hob⟩
+  · subst e
+    cases step_cases hs with
+    | consume b h' =>
+      have hq : ∃ rq, ({ t with oracle := ch } : RState).readyqueue.dropWhile
+          (fun id => (({ t with oracle := ch } : RState).conns.get? id).isNone) = a :: rq := by
+        unfold polled at hp
+        cases hl : t.readyqueue.dropWhile (fun id => (t.conns.get? id).isNone) with
+        | nil => rw [hl] at hp; cases hp
+        | cons x xs => rw [hl] at hp; simp only [List.head?_cons, Option.some.injEq] at hp; subst hp; exact ⟨xs, rfl⟩
+      obtain ⟨rq, hq⟩ := hq
+      obtain ⟨_, h1, h2, h3, _⟩ := consume_flushes_in_order hq hc' h'
+      exact ⟨h1, h2, h3⟩
+  · obtain ⟨c1, hc1, _, _, htr⟩ := own_step hr hc ho hs
+    obtain ⟨tk, rfl⟩ := htr h1 h2
+    simp [acksOf, hc1, hc]
+
+/-- C14 (c) `isolated_replies`, over runs: every op of a run under `OwnRun` is applied to a reachable
+    state in which X's connection is registered (same client id and link), and the four statements of
+    `isolated_replies_step` hold for it — each batch X sends is answered by exactly its replies on X's
+    own ack log, the sweep of X flushes them in order to X's own link, no op of any other id touches
+    X's ack log, and no reply is left behind when X goes idle -/
+theorem isolated_replies {cfg : Config} {a : Nat} {f : String} (ops : List (Op × List Choice)) {s s2 : RState} {c : Conn}
+    (hr : Reachable cfg s) (hc : getConn s a = some c) (ho : OwnRun a c.clientId f s ops) (hrun : run s ops = .ok s2)
+    (pre : List (Op × List Choice)) (op : Op) (ch : List Choice) (post : List (Op × List Choice))
+    (hsplit : ops = pre ++ (op, ch) :: post) :
+    ∃ t t' out ct, run s pre = .ok t ∧ step { t with oracle := ch } op = .ok (t', out) ∧ run t' post = .ok s2 ∧
+      getConn t a = some ct ∧ ct.clientId = c.clientId ∧ ct.link = c.link ∧
+      (op = .event a .deviceData →
+        ∃ as, Replies (getLink t ct.link).ibuf as ∧ acksOf t' a = some (ct.acks.committed ++ as) ∧
+          (∀ j, j ≠ a → (getConn t' j).map Conn.view = (getConn t j).map Conn.view) ∧
+          (∀ l, (getLink t' l).obuf = (getLink t l).obuf)) ∧
+      (op = .consume → polled t = some a →
+        (∃ rest, (getLink t' ct.link).obuf = (getLink t ct.link).obuf ++ ct.acks.committed.map Notif.ack ++ rest ∧
+          ∀ n ∈ rest, n.isAck = false) ∧
+        (∀ l, l ≠ ct.link → getLink t' l = getLink t l) ∧ acksOf t' a = some []) ∧
+      (op ≠ .event a .deviceData → (op = .consume → polled t ≠ some a) → acksOf t' a = acksOf t a) ∧
+      (∀ c', getConn t' a = some c' → c'.tracker.status = .paused .caughtup → c'.acks.committed = []) := by
+  obtain ⟨t, t', out, ct, k1, k2, k3, k4, k5, k6, k7⟩ := OwnRun.along ops hr hc ho hrun pre op ch post hsplit
+  have ho' : OwnOp a ct.clientId f { t with oracle := ch } op := by rw [k4.1]; exact k5
+  obtain ⟨p1, p2, p3, p4⟩ := isolated_replies_step k2 k3 ho' k6
+  exact ⟨t, t', out, ct, k1, k6, k7, k3, k4.1, k4.2.1, p1, p2, p3, p4⟩
+
+/-- C14 (d) `no_op_panics`: no run from a reachable state panics, whatever its ops — in particular no op
+    of another id (stale events for removed or never-used ids, unsolicited acks, malformed batches,
+    takeovers) brings the router down under X (`C03.router_never_panics`, over runs) -/
+theorem no_op_panics {cfg : Config} (ops : List (Op × List Choice)) {s : RState} (hr : Reachable cfg s)
+    (msg : String) : run s ops ≠ .error (.panic msg) :=
+  run_never_panics ops hr msg
+
+/-- C14 `isolation`, assembled — "one client's misbehaviour never disturbs another":
+    for any run `ops` from a reachable state `s` in which X (connection `a`, record `c`) is registered,
+    with premises on X's own ops only (`OwnRun`) and ARBITRARY ops of all other ids,
+    * (d) "… never brings the broker down": the run does not panic;
+    and if it ends in `s2`,
+    * (a) "… X stays connected and subscribed": X's connection is registered in `s2` under the same id,
+      client id, link, with the same subscriptions unless X itself sent packets;
+    * (b) "… X receives exactly its messages": within the retention and the no-overflow bound, the offsets
+      forwarded through X's non-shared subscription `f` are exactly the consecutive ones from X's cursor;
+    * (c) "… X's requests are answered, to X only": at every op of the run, X's batch gets exactly its
+      replies on X's ack log, X's sweep flushes them in order to X's link, no other op touches X's ack
+      log, none is withheld at idle. -/
+theorem isolation {cfg : Config} (h1 : 1 ≤ cfg.maxSegmentSize) (h2 : 1 ≤ cfg.maxSegmentCount)
+    (hpos : 0 < cfg.maxOutgoingPacketCount) {a : Nat} {f : String} (ops : List (Op × List Choice))
+    {s : RState} {c : Conn} (hr : Reachable cfg s) (hc : getConn s a = some c) (ho : OwnRun a c.clientId f s ops) :
+    (∀ msg, run s ops ≠ .error (.panic msg)) ∧
+    ∀ s2, run s ops = .ok s2 →
+      (∃ c2, getConn s2 a = some c2 ∧ c2.clientId = c.clientId ∧ c2.link = c.link ∧ c2.clean = c.clean ∧
+        alookup c.clientId s2.connectionMap = some a ∧
+        ((∀ ch, (Op.event a .deviceData, ch) ∉ ops) → c2.subscriptions = c.subscriptions)) ∧
+      (∀ r, Own s a r → r.filter = f → r.group = none → RetRun a f s ops → Rp3.NoOverflow s2 →
+        ∃ r2 c2, Own s2 a r2 ∧ r2.filter = f ∧ r2.group = none ∧ r2.filterIdx = r.filterIdx ∧
+          runFwd a f s ops = List.range' r.cursor.2 (runFwd a f s ops).length ∧
+          r2.cursor.2 = r.cursor.2 + (runFwd a f s ops).length ∧
+          getConn s2 a = some c2 ∧ f ∈ c2.subscriptions) ∧
+      (∀ pre op ch post, ops = pre ++ (op, ch) :: post →
+        ∃ t t' out ct, run s pre = .ok t ∧ step { t with oracle := ch } op = .ok (t', out) ∧ run t' post = .ok s2 ∧
+          getConn t a = some ct ∧ ct.clientId = c.clientId ∧ ct.link = c.link ∧
+          (op = .event a .deviceData →
+            ∃ as, Replies (getLink t ct.link).ibuf as ∧ acksOf t' a = some (ct.acks.committed ++ as) ∧
+              (∀ j, j ≠ a → (getConn t' j).map Conn.view = (getConn t j).map Conn.view) ∧
+              (∀ l, (getLink t' l).obuf = (getLink t l).obuf)) ∧
+          (op = .consume → polled t = some a →
+            (∃ rest, (getLink t' ct.link).obuf = (getLink t ct.link).obuf ++ ct.acks.committed.map Notif.ack ++ rest ∧
+              ∀ n ∈ rest, n.isAck = false) ∧
+            (∀ l, l ≠ ct.link → getLink t' l = getLink t l) ∧ acksOf t' a = some []) ∧
+          (op ≠ .event a .deviceData → (op = .consume → polled t ≠ some a) → acksOf t' a = acksOf t a) ∧
+          (∀ c', getConn t' a = some c' → c'.tracker.status = .paused .caughtup → c'.acks.committed = [])) :=
+  ⟨no_op_panics ops hr, fun s2 hrun =>
+    ⟨connection_and_subscriptions_survive ops hr hc ho hrun,
+     fun _ hown hf hplain hret hno => isolated_delivery h1 h2 hpos ops hr hc ho hret hrun hno hown hf hplain,
+     fun pre op ch post e => isolated_replies ops hr hc ho hrun pre op ch post e⟩⟩
+
 /-- non-vacuity: closing connection 0 of a two-connection state leaves connection 1 in place -/
 example : ∃ s s', Reachable ⟨2, 1024, 2, 10, .roundRobin⟩ s ∧ step s (.event 0 .disconnect) = .ok (s', .ok) ∧
     (getConn s 0).isSome = true ∧ (getConn s' 0).isSome = false ∧ (getConn s' 1).isSome = true :=
   ⟨_, _, ⟨[(.connect { link := 0, clientId := "a", clean := true, dynamicFilters := false, aliasMax := 0, will := none }, []),
            (.connect { link := 1, clientId := "b", clean := true, dynamicFilters := false, aliasMax := 0, will := none }, [])], rfl⟩,
     (step_eqX _ _).trans rfl, rfl, rfl, rfl⟩
+
+/-- non-vacuity of the run-level premises: with `a` (id 0) and `b` (id 1) connected, a run in which `b`
+    is disconnected twice (the second event is stale), a never-used id gets a `Ready`, `b`'s client id
+    reconnects, and the router sweeps satisfies `OwnRun` for X = `a` — none of these ops is constrained -/
+example : ∃ s c, Reachable ⟨4, 1024, 2, 10, .roundRobin⟩ s ∧ getConn s 0 = some c ∧ c.clientId = "a" ∧
+    OwnRun 0 "a" "t" s
+      [(.event 1 .disconnect, []), (.event 1 .disconnect, []), (.event 7 .ready, []),
+       (.connect { link := 2, clientId := "b", clean := true, dynamicFilters := false, aliasMax := 0, will := none }, []),
+       (.consume, [])] :=
+  ⟨_, _, Reachable.ofX [(.connect { link := 0, clientId := "a", clean := true, dynamicFilters := false, aliasMax := 0, will := none }, []),
+        (.connect { link := 1, clientId := "b", clean := true, dynamicFilters := false, aliasMax := 0, will := none }, [])] rfl,
+    rfl, rfl,
+    ⟨fun e => absurd e (by decide), fun _ _ _ => ⟨fun e => absurd e (by decide), fun _ _ _ =>
+      ⟨fun e => absurd e (by decide), fun _ _ _ => ⟨(show "b" ≠ "a" by decide), fun _ _ _ => ⟨trivial, fun _ _ _ => trivial⟩⟩⟩⟩⟩⟩
 
 end C14
